@@ -63,23 +63,34 @@ func (exec *execCtx) assemble() {
 			ok := exec.writeCollectedHeader()
 			if ok && exec.overtakePayloadInReverse(children[len(children)-1]) {
 				// payload of all children except the last are written, write last payload
-				exec.copyChild(exec.lastChildID, &exec.lastChildRange, false)
+				exec.copyLastChildRange()
 			}
 		}
 	} else if prev != nil {
 		if ok := exec.writeCollectedHeader(); ok {
 			if ok := exec.overtakePayloadInReverse(*prev); ok {
-				var rng *object.Range
-				if exec.ctxRange() != nil {
-					rng = &exec.lastChildRange
-				}
 				// payload of all children except the last are written, write last payload
-				exec.copyChild(exec.lastChildID, rng, false)
+				if exec.ctxRange() != nil {
+					exec.copyLastChildRange()
+				} else {
+					exec.copyChild(exec.lastChildID, nil, false)
+				}
 			}
 		}
 	} else {
 		exec.log.Debug("could not init parent from child")
 	}
+}
+
+// copyLastChildRange writes the part of the requested range that falls into
+// the child the assembly started from. Zero length means the range does not
+// reach that child, and nothing is written: a zero-length range would be
+// served as the full child payload.
+func (exec *execCtx) copyLastChildRange() {
+	if exec.lastChildRange.GetLength() == 0 {
+		return
+	}
+	exec.copyChild(exec.lastChildID, &exec.lastChildRange, false)
 }
 
 func (exec *execCtx) initFromChild(obj oid.ID) (*oid.ID, []oid.ID) {
